@@ -996,7 +996,7 @@ class OdeSystem(object):
         self.__allocate_soln_space(total_steps)
         try:
             while (implicit_integration or (self.dt != 0 and D.ar_numpy.abs(tf - self.__t[self.counter]) >= D.tol_epsilon(self.__y[self.counter].dtype))) and not end_int:
-                if not implicit_integration and D.ar_numpy.abs(self.dt + self.__t[self.counter]) > D.ar_numpy.abs(tf):
+                if not implicit_integration and D.ar_numpy.abs(self.dt) > D.ar_numpy.abs(tf - self.__t[self.counter]):
                     is_final_step = True
                     dt = (tf - self.__t[self.counter])
                 else:
